@@ -146,6 +146,92 @@ def WFSkel (i : Nat) (sk : SkelMap) : Skel → Prop
 
 def WFsk (sk : SkelMap) : Prop := ∀ i s, sk i = some s → WFSkel i sk s
 
+/-! ### unfolding lemmas -/
+
+section unfold
+variable {ρ : Nat → Bool} {sk : SkelMap} {i : Nat}
+
+theorem flatV_kb {bs ver} (h : sk i = some (.kb bs ver)) : flatV ρ sk i = bs.map (viewOf ρ) := by
+  rw [flatV.eq_def]; simp [h]
+theorem flatV_cond {c flt} (h : sk i = some (.cond c flt)) (hc : c < i) :
+    flatV ρ sk i = (flatV ρ sk c).map (View.gate (flt.eval ρ)) := by
+  rw [flatV.eq_def]; simp [h, hc]
+theorem flatV_glob {c} (h : sk i = some (.glob c)) (hc : c < i) :
+    flatV ρ sk i = (flatV ρ sk c).filter (·.glb) := by
+  rw [flatV.eq_def]; simp [h, hc]
+theorem flatV_merged {cs} (h : sk i = some (.merged cs)) :
+    flatV ρ sk i = cs.flatMap fun c => if _h : c < i then flatV ρ sk c else [] := by
+  rw [flatV.eq_def]; simp [h]
+theorem flatV_dyn {t} (h : sk i = some (.dyn (some t))) (ht : t < i) : flatV ρ sk i = flatV ρ sk t := by
+  rw [flatV.eq_def]; simp [h, ht]
+theorem flatV_dynNone (h : sk i = some (.dyn none)) : flatV ρ sk i = [] := by
+  rw [flatV.eq_def]; simp [h]
+
+theorem pureVer_kb {bs ver} (h : sk i = some (.kb bs ver)) : pureVer sk i = .num ver := by
+  rw [pureVer.eq_def]; simp [h]
+theorem pureVer_cond {c flt} (h : sk i = some (.cond c flt)) (hc : c < i) : pureVer sk i = pureVer sk c := by
+  rw [pureVer.eq_def]; simp [h, hc]
+theorem pureVer_glob {c} (h : sk i = some (.glob c)) (hc : c < i) : pureVer sk i = pureVer sk c := by
+  rw [pureVer.eq_def]; simp [h, hc]
+theorem pureVer_merged {cs} (h : sk i = some (.merged cs)) :
+    pureVer sk i = .tup (cs.map fun c => if _h : c < i then pureVer sk c else .tup []) := by
+  rw [pureVer.eq_def]; simp [h]
+theorem pureVer_dyn {t} (h : sk i = some (.dyn (some t))) (ht : t < i) :
+    pureVer sk i = .dyn t (pureVer sk t) := by
+  rw [pureVer.eq_def]; simp [h, ht]
+theorem pureVer_dynNone (h : sk i = some (.dyn none)) : pureVer sk i = .dyn i (.num 0) := by
+  rw [pureVer.eq_def]; simp [h]
+
+theorem dcur_kb {bs ver} (h : sk i = some (.kb bs ver)) (v : Ver) :
+    dcur ρ sk i v = match v with
+      | .num m => if m = ver then some (bs.map (viewOf ρ)) else none
+      | _ => none := by
+  rw [dcur.eq_def]; simp [h]
+theorem dcur_cond {c flt} (h : sk i = some (.cond c flt)) (hc : c < i) (v : Ver) :
+    dcur ρ sk i v = (dcur ρ sk c v).map (·.map (View.gate (flt.eval ρ))) := by
+  rw [dcur.eq_def]; simp [h, hc]
+theorem dcur_glob {c} (h : sk i = some (.glob c)) (hc : c < i) (v : Ver) :
+    dcur ρ sk i v = (dcur ρ sk c v).map (·.filter (·.glb)) := by
+  rw [dcur.eq_def]; simp [h, hc]
+theorem dcur_merged {cs} (h : sk i = some (.merged cs)) (v : Ver) :
+    dcur ρ sk i v = match v with
+      | .tup vs => dcurList (fun c x => if _h : c < i then dcur ρ sk c x else none) cs vs
+      | _ => none := by
+  rw [dcur.eq_def]; simp [h]
+theorem dcur_dyn {t0} (h : sk i = some (.dyn t0)) (v : Ver) :
+    dcur ρ sk i v = match v with
+      | .dyn t v' =>
+        if t = i then (match v' with | .num 0 => some [] | _ => none)
+        else if _h : t < i then dcur ρ sk t v' else none
+      | _ => none := by
+  rw [dcur.eq_def]; simp [h]
+theorem dcur_none (h : sk i = none) (v : Ver) : dcur ρ sk i v = none := by
+  rw [dcur.eq_def]; simp [h]
+
+theorem Bnd_kb {bs ver} (h : sk i = some (.kb bs ver)) (v : Ver) :
+    Bnd sk i v ↔ match v with
+      | .num m => m ≤ ver
+      | _ => False := by
+  rw [Bnd.eq_def]; simp [h]
+theorem Bnd_cond {c flt} (h : sk i = some (.cond c flt)) (hc : c < i) (v : Ver) :
+    Bnd sk i v ↔ Bnd sk c v := by
+  rw [Bnd.eq_def]; simp [h, hc]
+theorem Bnd_glob {c} (h : sk i = some (.glob c)) (hc : c < i) (v : Ver) : Bnd sk i v ↔ Bnd sk c v := by
+  rw [Bnd.eq_def]; simp [h, hc]
+theorem Bnd_merged {cs} (h : sk i = some (.merged cs)) (v : Ver) :
+    Bnd sk i v ↔ match v with
+      | .tup vs => bndList (fun c x => if _h : c < i then Bnd sk c x else False) cs vs
+      | _ => False := by
+  rw [Bnd.eq_def]; simp [h]
+theorem Bnd_dyn {t0} (h : sk i = some (.dyn t0)) (v : Ver) :
+    Bnd sk i v ↔ match v with
+      | .dyn t v' => if t = i then v' = .num 0 else if _h : t < i then Bnd sk t v' else False
+      | _ => False := by
+  rw [Bnd.eq_def]; simp [h]
+theorem Bnd_none (h : sk i = none) (v : Ver) : ¬ Bnd sk i v := by
+  rw [Bnd.eq_def]; simp [h]
+end unfold
+
 /-! ### the current version names the current content -/
 
 theorem dcur_pureVer (ρ : Nat → Bool) (sk : SkelMap) (wf : WFsk sk) (i : Nat) (hi : (sk i).isSome) :
@@ -156,25 +242,26 @@ theorem dcur_pureVer (ρ : Nat → Bool) (sk : SkelMap) (wf : WFsk sk) (i : Nat)
     | none => simp [hs] at hi
     | some s =>
       have hw := wf i s hs
-      rw [dcur, pureVer, flatV]
       cases s with
-      | kb bs ver => simp [hs]
+      | kb bs ver => rw [dcur_kb hs, pureVer_kb hs, flatV_kb hs]; simp
       | cond c flt =>
         simp only [WFSkel] at hw
-        simp [hs, hw.1, ih c hw.1 hw.2]
+        rw [dcur_cond hs hw.1, pureVer_cond hs hw.1, flatV_cond hs hw.1, ih c hw.1 hw.2]; rfl
       | glob c =>
         simp only [WFSkel] at hw
-        simp [hs, hw.1, ih c hw.1 hw.2]
+        rw [dcur_glob hs hw.1, pureVer_glob hs hw.1, flatV_glob hs hw.1, ih c hw.1 hw.2]; rfl
       | dyn t =>
         cases t with
-        | none => simp [hs]
+        | none => rw [dcur_dyn hs, pureVer_dynNone hs, flatV_dynNone hs]; simp
         | some t =>
           simp only [WFSkel] at hw
           have : t ≠ i := Nat.ne_of_lt hw.1
-          simp [hs, hw.1, this, ih t hw.1 hw.2]
+          rw [dcur_dyn hs, pureVer_dyn hs hw.1, flatV_dyn hs hw.1]
+          simp [this, hw.1, ih t hw.1 hw.2]
       | merged cs =>
         simp only [WFSkel] at hw
-        simp only [hs]
+        rw [dcur_merged hs, pureVer_merged hs, flatV_merged hs]
+        simp only []
         have key : ∀ (l : List Nat), (∀ c ∈ l, c < i ∧ (sk c).isSome) →
             dcurList (fun c x => if _h : c < i then dcur ρ sk c x else none) l
               (l.map fun c => if _h : c < i then pureVer sk c else .tup []) =
@@ -184,8 +271,906 @@ theorem dcur_pureVer (ρ : Nat → Bool) (sk : SkelMap) (wf : WFsk sk) (i : Nat)
           | nil => simp [dcurList]
           | cons c l ihl =>
             have hc := hl c (List.mem_cons_self ..)
-            have := ihl (fun x hx => hl x (List.mem_cons_of_mem _ hx))
-            simp [dcurList, hc.1, ih c hc.1 hc.2, this]
+            have h2 := ihl (fun x hx => hl x (List.mem_cons_of_mem _ hx))
+            simp only [List.map_cons, dcurList, hc.1, dite_true, ih c hc.1 hc.2, List.flatMap_cons]
+            rw [h2]
         exact key cs hw
+
+theorem Bnd_pureVer (sk : SkelMap) (wf : WFsk sk) (i : Nat) (hi : (sk i).isSome) :
+    Bnd sk i (pureVer sk i) := by
+  induction i using Nat.strongRecOn with
+  | ind i ih =>
+    cases hs : sk i with
+    | none => simp [hs] at hi
+    | some s =>
+      have hw := wf i s hs
+      cases s with
+      | kb bs ver => rw [Bnd_kb hs, pureVer_kb hs]; simp
+      | cond c flt =>
+        simp only [WFSkel] at hw
+        rw [Bnd_cond hs hw.1, pureVer_cond hs hw.1]; exact ih c hw.1 hw.2
+      | glob c =>
+        simp only [WFSkel] at hw
+        rw [Bnd_glob hs hw.1, pureVer_glob hs hw.1]; exact ih c hw.1 hw.2
+      | dyn t =>
+        cases t with
+        | none => rw [Bnd_dyn hs, pureVer_dynNone hs]; simp
+        | some t =>
+          simp only [WFSkel] at hw
+          have : t ≠ i := Nat.ne_of_lt hw.1
+          rw [Bnd_dyn hs, pureVer_dyn hs hw.1]
+          simp [this, hw.1, ih t hw.1 hw.2]
+      | merged cs =>
+        simp only [WFSkel] at hw
+        rw [Bnd_merged hs, pureVer_merged hs]
+        simp only []
+        have key : ∀ (l : List Nat), (∀ c ∈ l, c < i ∧ (sk c).isSome) →
+            bndList (fun c x => if _h : c < i then Bnd sk c x else False) l
+              (l.map fun c => if _h : c < i then pureVer sk c else .tup []) := by
+          intro l hl
+          induction l with
+          | nil => simp [bndList]
+          | cons c l ihl =>
+            have hc := hl c (List.mem_cons_self ..)
+            have h2 := ihl (fun x hx => hl x (List.mem_cons_of_mem _ hx))
+            simp only [List.map_cons, bndList, hc.1, dite_true]
+            exact ⟨ih c hc.1 hc.2, h2⟩
+        exact key cs hw
+
+/-- the initial `_last_version = ()` names content only for an object without registries -/
+theorem dcur_tup_nil (ρ : Nat → Bool) (sk : SkelMap) (i : Nat) (content : List View)
+    (h : dcur ρ sk i (.tup []) = some content) : content = [] := by
+  induction i using Nat.strongRecOn generalizing content with
+  | ind i ih =>
+    cases hs : sk i with
+    | none => rw [dcur_none hs] at h; cases h
+    | some s =>
+      cases s with
+      | kb bs ver => rw [dcur_kb hs] at h; simp at h
+      | cond c flt =>
+        by_cases hc : c < i
+        · rw [dcur_cond hs hc] at h
+          cases hd : dcur ρ sk c (.tup []) with
+          | none => simp [hd] at h
+          | some x => simp [hd] at h; rw [← h, ih c hc x hd]; rfl
+        · rw [dcur.eq_def] at h; simp [hs, hc] at h
+      | glob c =>
+        by_cases hc : c < i
+        · rw [dcur_glob hs hc] at h
+          cases hd : dcur ρ sk c (.tup []) with
+          | none => simp [hd] at h
+          | some x => simp [hd] at h; rw [← h, ih c hc x hd]; rfl
+        · rw [dcur.eq_def] at h; simp [hs, hc] at h
+      | dyn t => rw [dcur_dyn hs] at h; simp at h
+      | merged cs =>
+        rw [dcur_merged hs] at h
+        simp only [] at h
+        cases cs with
+        | nil => simp [dcurList] at h; exact h
+        | cons c cs => simp [dcurList] at h
+
+/-! ### views of the lookups -/
+
+def exactV (ks : List Key) (v : View) : Bool := ks.length == v.keys.length && zipMatch v.keys ks
+
+def insDescV (b : View) : List View → List View
+  | [] => [b]
+  | c :: cs => if anyCount c.keys ≤ anyCount b.keys then b :: c :: cs else c :: insDescV b cs
+
+def sortDescV (l : List View) : List View := l.foldr insDescV []
+
+/-- `get_bindings_for_keys` over views -/
+def matchForV (vs : List View) (ks : List Key) : List View := sortDescV (vs.filter (exactV ks))
+
+/-- `get_bindings_starting_with_keys` over views -/
+def matchStartingV (vs : List View) (ks : List Key) : List View :=
+  vs.filter fun v => decide (ks.length < v.keys.length) && zipMatch v.keys ks
+
+theorem insDesc_view (ρ : Nat → Bool) (b : Binding) (s : List Binding) :
+    (insDesc b s).map (viewOf ρ) = insDescV (viewOf ρ b) (s.map (viewOf ρ)) := by
+  induction s with
+  | nil => rfl
+  | cons c cs ih =>
+    simp only [insDesc, List.map_cons, insDescV]
+    have : (viewOf ρ c).keys = c.keys ∧ (viewOf ρ b).keys = b.keys := ⟨rfl, rfl⟩
+    rw [this.1, this.2]
+    split
+    · rfl
+    · simp [ih]
+
+theorem sortDesc_view (ρ : Nat → Bool) (l : List Binding) :
+    (sortDesc l).map (viewOf ρ) = sortDescV (l.map (viewOf ρ)) := by
+  induction l with
+  | nil => rfl
+  | cons x l ih =>
+    have : sortDesc (x :: l) = insDesc x (sortDesc l) := rfl
+    rw [this, insDesc_view, ih]; rfl
+
+theorem matchFor_view (ρ : Nat → Bool) (bs : List Binding) (ks : List Key) :
+    (matchFor bs ks).map (viewOf ρ) = matchForV (bs.map (viewOf ρ)) ks := by
+  unfold matchFor matchForV
+  rw [sortDesc_view, List.filter_map]
+  rfl
+
+theorem matchStarting_view (ρ : Nat → Bool) (bs : List Binding) (ks : List Key) :
+    (matchStarting bs ks).map (viewOf ρ) = matchStartingV (bs.map (viewOf ρ)) ks := by
+  unfold matchStarting matchStartingV
+  rw [List.filter_map]
+  rfl
+
+/-! ### the invariant of the object table -/
+
+/-- the filters of the bindings are live objects; `is_global` is a constant (`True`/`False`) -/
+def BsOK (h : Heap) (bs : List Binding) : Prop :=
+  ∀ b ∈ bs, Known h b.filter ∧ b.isGlobal.isConst = true
+
+/-- a wrapper's stored copy: if the stored version names current content, the copy *is* that
+    content; and the stored version is the initial `()` or not from the future -/
+def ProxyOK (sk : SkelMap) (i : Nat) (b2 : KB) (last : Ver) : Prop :=
+  (∀ ρ content, dcur ρ sk i last = some content → b2.bs.map (viewOf ρ) = content) ∧
+  ((last = .tup [] ∧ b2.bs = []) ∨ Bnd sk i last)
+
+def EntOK (h : Heap) (sk : SkelMap) (i : Nat) : Reg → Prop
+  | .kb k => KBOK k ∧ BsOK h k.bs
+  | .cond c flt b2 last => c < i ∧ KBOK b2 ∧ BsOK h b2.bs ∧ Known h flt ∧ ProxyOK sk i b2 last
+  | .merged cs b2 last => (∀ c ∈ cs, c < i) ∧ KBOK b2 ∧ BsOK h b2.bs ∧ ProxyOK sk i b2 last
+  | .glob c b2 last => c < i ∧ KBOK b2 ∧ BsOK h b2.bs ∧ ProxyOK sk i b2 last
+  | .dyn t d => (∀ t', t = some t' → t' < i) ∧ KBOK d ∧ d.bs = [] ∧ d.ver = 0
+
+structure Inv (w : W) : Prop where
+  heap : HeapOK w.heap
+  ent : ∀ i r, w.regs[i]? = some r → EntOK w.heap (skelOf w) i r
+
+/-- `w'` differs from `w` only in caches/stored copies of objects `< bound` and by heap growth -/
+structure Frame (w w' : W) (bound : Nat) : Prop where
+  env : w'.env = w.env
+  skel : skelOf w' = skelOf w
+  heap : ∀ f, Known w.heap f → Known w'.heap f
+  above : ∀ j, bound ≤ j → w'.regs[j]? = w.regs[j]?
+
+theorem Frame.refl (w : W) (b : Nat) : Frame w w b := ⟨rfl, rfl, fun _ h => h, fun _ _ => rfl⟩
+
+theorem Frame.trans {w1 w2 w3 : W} {b1 b2 b : Nat} (f1 : Frame w1 w2 b1) (f2 : Frame w2 w3 b2)
+    (h1 : b1 ≤ b) (h2 : b2 ≤ b) : Frame w1 w3 b :=
+  ⟨f2.env.trans f1.env, f2.skel.trans f1.skel, fun f h => f2.heap f (f1.heap f h),
+   fun j hj => (f2.above j (by omega)).trans (f1.above j (by omega))⟩
+
+theorem BsOK.mono {h h' : Heap} {bs : List Binding} (ok : BsOK h bs)
+    (hm : ∀ f, Known h f → Known h' f) : BsOK h' bs :=
+  fun b hb => ⟨hm _ (ok b hb).1, (ok b hb).2⟩
+
+theorem EntOK.mono {h h' : Heap} {sk : SkelMap} {i : Nat} {r : Reg} (ok : EntOK h sk i r)
+    (hm : ∀ f, Known h f → Known h' f) : EntOK h' sk i r := by
+  cases r with
+  | kb k => exact ⟨ok.1, ok.2.mono hm⟩
+  | cond c flt b2 last => exact ⟨ok.1, ok.2.1, ok.2.2.1.mono hm, hm _ ok.2.2.2.1, ok.2.2.2.2⟩
+  | merged cs b2 last => exact ⟨ok.1, ok.2.1, ok.2.2.1.mono hm, ok.2.2.2⟩
+  | glob c b2 last => exact ⟨ok.1, ok.2.1, ok.2.2.1.mono hm, ok.2.2.2⟩
+  | dyn t d => exact ok
+
+theorem skelOf_isSome (w : W) (j : Nat) : (skelOf w j).isSome = true ↔ j < w.regs.length := by
+  unfold skelOf
+  cases h : w.regs[j]? with
+  | none => simp; exact List.getElem?_eq_none_iff.mp h
+  | some r =>
+    simp
+    exact (List.getElem?_eq_some_iff.mp h).1
+
+theorem Inv.wfsk {w : W} (inv : Inv w) : WFsk (skelOf w) := by
+  intro i s hs
+  unfold skelOf at hs
+  cases hr : w.regs[i]? with
+  | none => simp [hr] at hs
+  | some r =>
+    simp [hr] at hs
+    have hlt : i < w.regs.length := (List.getElem?_eq_some_iff.mp hr).1
+    have ok := inv.ent i r hr
+    subst hs
+    cases r with
+    | kb k => trivial
+    | cond c flt b2 last =>
+      exact ⟨ok.1, (skelOf_isSome w c).mpr (Nat.lt_trans ok.1 hlt)⟩
+    | glob c b2 last =>
+      exact ⟨ok.1, (skelOf_isSome w c).mpr (Nat.lt_trans ok.1 hlt)⟩
+    | merged cs b2 last =>
+      intro c hc
+      exact ⟨ok.1 c hc, (skelOf_isSome w c).mpr (Nat.lt_trans (ok.1 c hc) hlt)⟩
+    | dyn t d =>
+      cases t with
+      | none => trivial
+      | some t =>
+        have := ok.1 t rfl
+        exact ⟨this, (skelOf_isSome w t).mpr (Nat.lt_trans this hlt)⟩
+
+/-- replacing an entry by one with the same skeleton does not change the skeleton map -/
+theorem skelOf_setReg (w : W) (i : Nat) (r old : Reg) (ho : w.regs[i]? = some old)
+    (hs : r.skel = old.skel) : skelOf (setReg w i r) = skelOf w := by
+  funext j
+  unfold skelOf setReg
+  simp only [List.getElem?_set]
+  by_cases hij : i = j
+  · subst hij
+    have hlt : i < w.regs.length := (List.getElem?_eq_some_iff.mp ho).1
+    simp [hlt, ho, hs]
+    have := (List.getElem?_eq_some_iff.mp ho).2
+    rw [this]
+  · simp [hij]
+
+theorem setReg_get_ne (w : W) (i j : Nat) (r : Reg) (h : i ≠ j) :
+    (setReg w i r).regs[j]? = w.regs[j]? := by
+  unfold setReg; simp [List.getElem?_set, h]
+
+theorem setReg_get_eq (w : W) (i : Nat) (r : Reg) (h : i < w.regs.length) :
+    (setReg w i r).regs[i]? = some r := by
+  unfold setReg; simp [List.getElem?_set, h]
+
+/-- the copy loop of `ConditionalKeyBindings._update_cache` -/
+theorem condCopy_spec {h : Heap} (ok : HeapOK h) (flt : F) (kf : Known h flt) (bs : List Binding)
+    (kb : BsOK h bs) :
+    HeapOK (condCopy h flt bs).1 ∧ (∀ f, Known h f → Known (condCopy h flt bs).1 f) ∧
+    BsOK (condCopy h flt bs).1 (condCopy h flt bs).2 ∧
+    ∀ ρ, (condCopy h flt bs).2.map (viewOf ρ) = (bs.map (viewOf ρ)).map (View.gate (flt.eval ρ)) := by
+  induction bs generalizing h with
+  | nil => exact ⟨ok, fun _ hf => hf, (fun b hb => nomatch hb), fun _ => rfl⟩
+  | cons b bs ih =>
+    obtain ⟨⟨o1, k1, m1⟩, e1⟩ := fAnd_spec ok flt b.filter kf (kb b (List.mem_cons_self ..)).1
+    have kb' : BsOK (fAnd h flt b.filter).1 bs :=
+      fun x hx => ⟨m1 _ (kb x (List.mem_cons_of_mem _ hx)).1, (kb x (List.mem_cons_of_mem _ hx)).2⟩
+    obtain ⟨o2, m2, b2, e2⟩ := ih o1 (m1 _ kf) kb'
+    simp only [condCopy]
+    refine ⟨o2, fun f hf => m2 f (m1 f hf), ?_, ?_⟩
+    · intro x hx
+      rcases List.mem_cons.mp hx with rfl | hx
+      · exact ⟨m2 _ k1, (kb b (List.mem_cons_self ..)).2⟩
+      · exact b2 x hx
+    · intro ρ
+      simp only [List.map_cons, e2 ρ]
+      congr 1
+      simp [viewOf, View.gate, e1 ρ]
+
+theorem Frame.len {w w' : W} {b : Nat} (f : Frame w w' b) : w'.regs.length = w.regs.length := by
+  have h1 := skelOf_isSome w'
+  have h2 := skelOf_isSome w
+  rw [f.skel] at h1
+  have : ∀ j, j < w'.regs.length ↔ j < w.regs.length := fun j => (h1 j).symm.trans (h2 j)
+  have a := (this w.regs.length).mp
+  have b := (this w'.regs.length).mpr
+  omega
+
+mutual
+theorem Ver.beq_eq : ∀ a b : Ver, Ver.beq a b = true → a = b
+  | .num a, .num b, h => by simp [Ver.beq] at h; rw [h]
+  | .tup a, .tup b, h => by simp [Ver.beq] at h; rw [Ver.beqL_eq a b h]
+  | .dyn t v, .dyn t' v', h => by simp [Ver.beq] at h; rw [h.1, Ver.beq_eq v v' h.2]
+  | .num _, .tup _, h => by simp [Ver.beq] at h
+  | .num _, .dyn _ _, h => by simp [Ver.beq] at h
+  | .tup _, .num _, h => by simp [Ver.beq] at h
+  | .tup _, .dyn _ _, h => by simp [Ver.beq] at h
+  | .dyn _ _, .num _, h => by simp [Ver.beq] at h
+  | .dyn _ _, .tup _, h => by simp [Ver.beq] at h
+theorem Ver.beqL_eq : ∀ a b : List Ver, Ver.beqL a b = true → a = b
+  | [], [], _ => rfl
+  | x :: xs, y :: ys, h => by
+    simp [Ver.beqL] at h; rw [Ver.beq_eq x y h.1, Ver.beqL_eq xs ys h.2]
+  | [], _ :: _, h => by simp [Ver.beqL] at h
+  | _ :: _, [], h => by simp [Ver.beqL] at h
+end
+
+/-! ### the five operations on objects nested at most `n` deep -/
+
+structure OpsOK (p : Fns) (n : Nat) : Prop where
+  version : ∀ w i, Inv w → i < n → i < w.regs.length →
+    Inv (p.version w i).1 ∧ Frame w (p.version w i).1 (i + 1) ∧
+    (p.version w i).2 = pureVer (skelOf w) i
+  bindings : ∀ w i, Inv w → i < n → i < w.regs.length →
+    Inv (p.bindings w i).1 ∧ Frame w (p.bindings w i).1 (i + 1) ∧
+    BsOK (p.bindings w i).1.heap (p.bindings w i).2 ∧
+    ∀ ρ, (p.bindings w i).2.map (viewOf ρ) = flatV ρ (skelOf w) i
+  getFor : ∀ w i ks, Inv w → i < n → i < w.regs.length →
+    Inv (p.getFor w i ks).1 ∧ Frame w (p.getFor w i ks).1 (i + 1) ∧
+    ∀ ρ, (p.getFor w i ks).2.map (viewOf ρ) = matchForV (flatV ρ (skelOf w) i) ks
+  getStart : ∀ w i ks, Inv w → i < n → i < w.regs.length →
+    Inv (p.getStart w i ks).1 ∧ Frame w (p.getStart w i ks).1 (i + 1) ∧
+    ∀ ρ, (p.getStart w i ks).2.map (viewOf ρ) = matchStartingV (flatV ρ (skelOf w) i) ks
+
+theorem opsOK_bottom : OpsOK Fns.bottom 0 :=
+  ⟨fun _ _ _ h => absurd h (Nat.not_lt_zero _), fun _ _ _ h => absurd h (Nat.not_lt_zero _),
+   fun _ _ _ _ h => absurd h (Nat.not_lt_zero _), fun _ _ _ _ h => absurd h (Nat.not_lt_zero _)⟩
+
+section step
+variable {p : Fns} {n : Nat} (hp : OpsOK p n)
+include hp
+
+theorem versionsOf_ok (i : Nat) (cs : List Nat) (w : W) (inv : Inv w)
+    (hcs : ∀ c ∈ cs, c < n ∧ c < i ∧ c < w.regs.length) :
+    Inv (versionsOf p w cs).1 ∧ Frame w (versionsOf p w cs).1 i ∧
+    (versionsOf p w cs).2 = cs.map (pureVer (skelOf w)) := by
+  induction cs generalizing w with
+  | nil => exact ⟨inv, Frame.refl _ _, rfl⟩
+  | cons c cs ih =>
+    have hc := hcs c (List.mem_cons_self ..)
+    obtain ⟨i1, f1, v1⟩ := hp.version w c inv hc.1 hc.2.2
+    have hcs' : ∀ x ∈ cs, x < n ∧ x < i ∧ x < (p.version w c).1.regs.length := by
+      intro x hx
+      have := hcs x (List.mem_cons_of_mem _ hx)
+      exact ⟨this.1, this.2.1, by rw [f1.len]; exact this.2.2⟩
+    obtain ⟨i2, f2, v2⟩ := ih (p.version w c).1 i1 hcs'
+    simp only [versionsOf]
+    refine ⟨i2, f1.trans f2 (by omega) (Nat.le_refl _), ?_⟩
+    simp only [List.map_cons, v1, v2, f1.skel]
+
+theorem bindingsOfAll_ok (i : Nat) (cs : List Nat) (w : W) (inv : Inv w)
+    (hcs : ∀ c ∈ cs, c < n ∧ c < i ∧ c < w.regs.length) :
+    Inv (bindingsOfAll p w cs).1 ∧ Frame w (bindingsOfAll p w cs).1 i ∧
+    BsOK (bindingsOfAll p w cs).1.heap (bindingsOfAll p w cs).2 ∧
+    ∀ ρ, (bindingsOfAll p w cs).2.map (viewOf ρ) = cs.flatMap (flatV ρ (skelOf w)) := by
+  induction cs generalizing w with
+  | nil => exact ⟨inv, Frame.refl _ _, (fun b hb => nomatch hb), fun _ => rfl⟩
+  | cons c cs ih =>
+    have hc := hcs c (List.mem_cons_self ..)
+    obtain ⟨i1, f1, b1, v1⟩ := hp.bindings w c inv hc.1 hc.2.2
+    have hcs' : ∀ x ∈ cs, x < n ∧ x < i ∧ x < (p.bindings w c).1.regs.length := by
+      intro x hx
+      have := hcs x (List.mem_cons_of_mem _ hx)
+      exact ⟨this.1, this.2.1, by rw [f1.len]; exact this.2.2⟩
+    obtain ⟨i2, f2, b2, v2⟩ := ih (p.bindings w c).1 i1 hcs'
+    simp only [bindingsOfAll]
+    refine ⟨i2, f1.trans f2 (by omega) (Nat.le_refl _), ?_, ?_⟩
+    · intro b hb
+      rcases List.mem_append.mp hb with h | h
+      · exact ⟨f2.heap _ (b1 b h).1, (b1 b h).2⟩
+      · exact b2 b h
+    · intro ρ
+      simp only [List.map_append, List.flatMap_cons, v1 ρ, v2 ρ, f1.skel]
+end step
+
+theorem skelOf_of_get {w : W} {i : Nat} {r : Reg} (h : w.regs[i]? = some r) :
+    skelOf w i = some r.skel := by
+  simp [skelOf, h]
+
+/-- replace entry `i` by a new one with the same skeleton (heap may have grown) -/
+theorem Inv.setEntry {w : W} (inv : Inv w) (h' : Heap) (hh : HeapOK h')
+    (hm : ∀ f, Known w.heap f → Known h' f) (i : Nat) (old new : Reg)
+    (ho : w.regs[i]? = some old) (hs : new.skel = old.skel)
+    (hnew : EntOK h' (skelOf w) i new) :
+    Inv (setReg { w with heap := h' } i new) ∧ Frame w (setReg { w with heap := h' } i new) (i + 1) := by
+  have hsk : skelOf (setReg { w with heap := h' } i new) = skelOf w :=
+    skelOf_setReg { w with heap := h' } i new old ho hs
+  have hlt : i < w.regs.length := (List.getElem?_eq_some_iff.mp ho).1
+  refine ⟨⟨hh, ?_⟩, ⟨rfl, hsk, hm, ?_⟩⟩
+  · intro j r hr
+    rw [hsk]
+    by_cases hij : i = j
+    · subst hij
+      rw [setReg_get_eq { w with heap := h' } i new hlt] at hr
+      cases hr
+      exact hnew
+    · rw [setReg_get_ne { w with heap := h' } i j new hij] at hr
+      exact (inv.ent j r hr).mono hm
+  · intro j hj
+    exact setReg_get_ne _ _ _ _ (by omega)
+
+/-- after `_update_cache` the wrapper `i` stores the current version -/
+def Synced (w w' : W) (i : Nat) : Prop :=
+  match w.regs[i]? with
+  | some (.cond c flt _ _) => ∃ b2, w'.regs[i]? = some (.cond c flt b2 (pureVer (skelOf w) i))
+  | some (.merged cs _ _) => ∃ b2, w'.regs[i]? = some (.merged cs b2 (pureVer (skelOf w) i))
+  | some (.glob c _ _) => ∃ b2, w'.regs[i]? = some (.glob c b2 (pureVer (skelOf w) i))
+  | _ => True
+
+section step2
+variable {p : Fns} {n : Nat} (hp : OpsOK p n)
+include hp
+
+theorem updateWith_cond {w : W} {i c : Nat} {flt : F} {b2 : KB} {last : Ver} (inv : Inv w)
+    (hi : i ≤ n) (he : w.regs[i]? = some (.cond c flt b2 last)) :
+    Inv (updateWith p w i) ∧ Frame w (updateWith p w i) (i + 1) ∧
+    ∃ b2', (updateWith p w i).regs[i]? = some (.cond c flt b2' (pureVer (skelOf w) i)) := by
+  have ok := inv.ent i _ he
+  obtain ⟨hci, okb2, bsb2, kflt, pok⟩ := ok
+  have hlt : i < w.regs.length := (List.getElem?_eq_some_iff.mp he).1
+  have hsk : skelOf w i = some (.cond c flt) := skelOf_of_get he
+  have hpv : pureVer (skelOf w) i = pureVer (skelOf w) c := pureVer_cond hsk hci
+  obtain ⟨i1, f1, v1⟩ := hp.version w c inv (by omega) (by omega)
+  have he1 : (p.version w c).1.regs[i]? = some (.cond c flt b2 last) := by
+    rw [f1.above i (by omega)]; exact he
+  unfold updateWith
+  simp only [he]
+  split
+  · -- refill
+    have hlen1 : c < (p.version w c).1.regs.length := by rw [f1.len]; omega
+    obtain ⟨i2, f2, bs2, v2⟩ := hp.bindings (p.version w c).1 c i1 (by omega) hlen1
+    have he2 : (p.bindings (p.version w c).1 c).1.regs[i]? = some (.cond c flt b2 last) := by
+      rw [f2.above i (by omega)]; exact he1
+    have kflt2 : Known (p.bindings (p.version w c).1 c).1.heap flt := f2.heap _ (f1.heap _ kflt)
+    obtain ⟨c1, c2, c3, c4⟩ := condCopy_spec i2.heap flt kflt2 _ bs2
+    have sk2 : skelOf (p.bindings (p.version w c).1 c).1 = skelOf w := f2.skel.trans f1.skel
+    have hnew : EntOK (condCopy (p.bindings (p.version w c).1 c).1.heap flt (p.bindings (p.version w c).1 c).2).1
+        (skelOf (p.bindings (p.version w c).1 c).1) i
+        (.cond c flt { bs := (condCopy (p.bindings (p.version w c).1 c).1.heap flt
+          (p.bindings (p.version w c).1 c).2).2 } (p.version w c).2) := by
+      refine ⟨hci, KBOK.fresh _ _, c3, c2 _ kflt2, ?_, ?_⟩
+      · intro ρ content hd
+        rw [sk2, v1, dcur_cond hsk hci, dcur_pureVer ρ _ inv.wfsk c
+          ((skelOf_isSome w c).mpr (by omega))] at hd
+        simp at hd
+        rw [← hd, c4 ρ, v2 ρ, f1.skel]
+      · right
+        rw [sk2, v1, Bnd_cond hsk hci]
+        exact Bnd_pureVer _ inv.wfsk c ((skelOf_isSome w c).mpr (by omega))
+    obtain ⟨i3, f3⟩ := i2.setEntry _ c1 c2 i (.cond c flt b2 last)
+      (.cond c flt { bs := (condCopy (p.bindings (p.version w c).1 c).1.heap flt
+          (p.bindings (p.version w c).1 c).2).2 } (p.version w c).2) he2 rfl hnew
+    refine ⟨i3, (f1.trans f2 (by omega) (by omega)).trans f3 (Nat.le_refl _) (Nat.le_refl _), ?_⟩
+    refine ⟨{ bs := (condCopy (p.bindings (p.version w c).1 c).1.heap flt
+          (p.bindings (p.version w c).1 c).2).2 }, ?_⟩
+    have hl2 : i < (p.bindings (p.version w c).1 c).1.regs.length := by rw [f2.len, f1.len]; exact hlt
+    rw [hpv, ← v1]
+    exact setReg_get_eq { (p.bindings (p.version w c).1 c).1 with heap := _ } i _ hl2
+  · -- the stored version is current
+    next hb =>
+    have hbeq : last = (p.version w c).2 := Ver.beq_eq _ _ (by simpa using hb)
+    refine ⟨i1, ⟨f1.env, f1.skel, f1.heap, fun j hj => f1.above j (by omega)⟩, b2, ?_⟩
+    rw [he1, hbeq, v1, hpv]
+theorem updateWith_glob {w : W} {i c : Nat} {b2 : KB} {last : Ver} (inv : Inv w)
+    (hi : i ≤ n) (he : w.regs[i]? = some (.glob c b2 last)) :
+    Inv (updateWith p w i) ∧ Frame w (updateWith p w i) (i + 1) ∧
+    ∃ b2', (updateWith p w i).regs[i]? = some (.glob c b2' (pureVer (skelOf w) i)) := by
+  have ok := inv.ent i _ he
+  obtain ⟨hci, okb2, bsb2, pok⟩ := ok
+  have hlt : i < w.regs.length := (List.getElem?_eq_some_iff.mp he).1
+  have hsk : skelOf w i = some (.glob c) := skelOf_of_get he
+  have hpv : pureVer (skelOf w) i = pureVer (skelOf w) c := pureVer_glob hsk hci
+  obtain ⟨i1, f1, v1⟩ := hp.version w c inv (by omega) (by omega)
+  have he1 : (p.version w c).1.regs[i]? = some (.glob c b2 last) := by
+    rw [f1.above i (by omega)]; exact he
+  unfold updateWith
+  simp only [he]
+  split
+  · have hlen1 : c < (p.version w c).1.regs.length := by rw [f1.len]; omega
+    obtain ⟨i2, f2, bs2, v2⟩ := hp.bindings (p.version w c).1 c i1 (by omega) hlen1
+    have he2 : (p.bindings (p.version w c).1 c).1.regs[i]? = some (.glob c b2 last) := by
+      rw [f2.above i (by omega)]; exact he1
+    have sk2 : skelOf (p.bindings (p.version w c).1 c).1 = skelOf w := f2.skel.trans f1.skel
+    have hnew : EntOK (p.bindings (p.version w c).1 c).1.heap
+        (skelOf (p.bindings (p.version w c).1 c).1) i
+        (.glob c { bs := (p.bindings (p.version w c).1 c).2.filter fun b =>
+            b.isGlobal.eval (envFn (p.bindings (p.version w c).1 c).1.env) } (p.version w c).2) := by
+      refine ⟨hci, KBOK.fresh _ _, fun b hb => bs2 b (List.mem_filter.mp hb).1, ?_, ?_⟩
+      · intro ρ content hd
+        rw [sk2, v1, ← hpv, dcur_pureVer ρ _ inv.wfsk i ((skelOf_isSome w i).mpr hlt)] at hd
+        simp at hd
+        rw [← hd, flatV_glob hsk hci, ← f1.skel, ← v2 ρ, List.filter_map]
+        congr 1
+        apply List.filter_congr
+        intro b hb
+        have hc := (bs2 b hb).2
+        show b.isGlobal.eval _ = (viewOf ρ b).glb
+        simp only [viewOf]
+        cases hg : b.isGlobal <;> simp [hg, F.isConst] at hc ⊢
+      · right
+        rw [sk2, v1, ← hpv]
+        exact Bnd_pureVer _ inv.wfsk i ((skelOf_isSome w i).mpr hlt)
+    obtain ⟨i3, f3⟩ := i2.setEntry _ i2.heap (fun _ h => h) i (.glob c b2 last)
+      (.glob c { bs := (p.bindings (p.version w c).1 c).2.filter fun b =>
+            b.isGlobal.eval (envFn (p.bindings (p.version w c).1 c).1.env) } (p.version w c).2)
+      he2 rfl hnew
+    refine ⟨i3, (f1.trans f2 (by omega) (by omega)).trans f3 (Nat.le_refl _) (Nat.le_refl _), ?_⟩
+    refine ⟨{ bs := (p.bindings (p.version w c).1 c).2.filter fun b =>
+            b.isGlobal.eval (envFn (p.bindings (p.version w c).1 c).1.env) }, ?_⟩
+    have hl2 : i < (p.bindings (p.version w c).1 c).1.regs.length := by rw [f2.len, f1.len]; exact hlt
+    rw [hpv, ← v1]
+    exact setReg_get_eq (p.bindings (p.version w c).1 c).1 i _ hl2
+  · next hb =>
+    have hbeq : last = (p.version w c).2 := Ver.beq_eq _ _ (by simpa using hb)
+    refine ⟨i1, ⟨f1.env, f1.skel, f1.heap, fun j hj => f1.above j (by omega)⟩, b2, ?_⟩
+    rw [he1, hbeq, v1, hpv]
+
+theorem updateWith_merged {w : W} {i : Nat} {cs : List Nat} {b2 : KB} {last : Ver} (inv : Inv w)
+    (hi : i ≤ n) (he : w.regs[i]? = some (.merged cs b2 last)) :
+    Inv (updateWith p w i) ∧ Frame w (updateWith p w i) (i + 1) ∧
+    ∃ b2', (updateWith p w i).regs[i]? = some (.merged cs b2' (pureVer (skelOf w) i)) := by
+  have ok := inv.ent i _ he
+  obtain ⟨hci, okb2, bsb2, pok⟩ := ok
+  have hlt : i < w.regs.length := (List.getElem?_eq_some_iff.mp he).1
+  have hsk : skelOf w i = some (.merged cs) := skelOf_of_get he
+  have hpv : pureVer (skelOf w) i = .tup (cs.map (pureVer (skelOf w))) := by
+    rw [pureVer_merged hsk]
+    congr 1
+    apply List.map_congr_left
+    intro c hc
+    simp [hci c hc]
+  have hfl : ∀ ρ, flatV ρ (skelOf w) i = cs.flatMap (flatV ρ (skelOf w)) := by
+    intro ρ
+    rw [flatV_merged hsk]
+    have : ∀ (l : List Nat), (∀ c ∈ l, c < i) →
+        (l.flatMap fun c => if _h : c < i then flatV ρ (skelOf w) c else []) =
+          l.flatMap (flatV ρ (skelOf w)) := by
+      intro l hl
+      induction l with
+      | nil => rfl
+      | cons c l ih =>
+        have h1 := ih (fun x hx => hl x (List.mem_cons_of_mem _ hx))
+        simp only [List.flatMap_cons, hl c (List.mem_cons_self ..), dite_true]
+        rw [h1]
+    exact this cs hci
+  obtain ⟨i1, f1, v1⟩ := versionsOf_ok hp i cs w inv
+    (fun c hc => ⟨by have := hci c hc; omega, hci c hc, by have := hci c hc; omega⟩)
+  have he1 : (versionsOf p w cs).1.regs[i]? = some (.merged cs b2 last) := by
+    rw [f1.above i (Nat.le_refl _)]; exact he
+  unfold updateWith
+  simp only [he]
+  split
+  · obtain ⟨i2, f2, bs2, v2⟩ := bindingsOfAll_ok hp i cs (versionsOf p w cs).1 i1
+      (fun c hc => ⟨by have := hci c hc; omega, hci c hc, by rw [f1.len]; have := hci c hc; omega⟩)
+    have he2 : (bindingsOfAll p (versionsOf p w cs).1 cs).1.regs[i]? = some (.merged cs b2 last) := by
+      rw [f2.above i (Nat.le_refl _)]; exact he1
+    have sk2 : skelOf (bindingsOfAll p (versionsOf p w cs).1 cs).1 = skelOf w := f2.skel.trans f1.skel
+    have hnew : EntOK (bindingsOfAll p (versionsOf p w cs).1 cs).1.heap
+        (skelOf (bindingsOfAll p (versionsOf p w cs).1 cs).1) i
+        (.merged cs { bs := (bindingsOfAll p (versionsOf p w cs).1 cs).2 } (.tup (versionsOf p w cs).2)) := by
+      refine ⟨hci, KBOK.fresh _ _, bs2, ?_, ?_⟩
+      · intro ρ content hd
+        rw [sk2, v1, ← hpv, dcur_pureVer ρ _ inv.wfsk i ((skelOf_isSome w i).mpr hlt)] at hd
+        simp at hd
+        rw [← hd, hfl ρ, v2 ρ, f1.skel]
+      · right
+        rw [sk2, v1, ← hpv]
+        exact Bnd_pureVer _ inv.wfsk i ((skelOf_isSome w i).mpr hlt)
+    obtain ⟨i3, f3⟩ := i2.setEntry _ i2.heap (fun _ h => h) i (.merged cs b2 last)
+      (.merged cs { bs := (bindingsOfAll p (versionsOf p w cs).1 cs).2 } (.tup (versionsOf p w cs).2))
+      he2 rfl hnew
+    refine ⟨i3, (f1.trans f2 (Nat.le_refl i) (Nat.le_refl i)).trans f3 (Nat.le_succ i) (Nat.le_refl _), ?_⟩
+    refine ⟨{ bs := (bindingsOfAll p (versionsOf p w cs).1 cs).2 }, ?_⟩
+    have hl2 : i < (bindingsOfAll p (versionsOf p w cs).1 cs).1.regs.length := by
+      rw [f2.len, f1.len]; exact hlt
+    rw [hpv, ← v1]
+    exact setReg_get_eq (bindingsOfAll p (versionsOf p w cs).1 cs).1 i _ hl2
+  · next hb =>
+    have hbeq : last = .tup (versionsOf p w cs).2 := Ver.beq_eq _ _ (by simpa using hb)
+    refine ⟨i1, ⟨f1.env, f1.skel, f1.heap, fun j hj => f1.above j (by omega)⟩, b2, ?_⟩
+    rw [he1, hbeq, v1, hpv]
+end step2
+
+/-! ### reading the (synchronised) copy -/
+
+theorem ProxyOK.of_bs {sk : SkelMap} {i : Nat} {b2 b2' : KB} {last : Ver} (h : ProxyOK sk i b2 last)
+    (e : b2'.bs = b2.bs) : ProxyOK sk i b2' last := by
+  unfold ProxyOK at *
+  rw [e]; exact h
+
+/-- the stored copy of a synchronised wrapper is the flattened content -/
+theorem ProxyOK.views {w : W} (inv : Inv w) {i : Nat} (hlt : i < w.regs.length) {b2 : KB}
+    (h : ProxyOK (skelOf w) i b2 (pureVer (skelOf w) i)) (ρ : Nat → Bool) :
+    b2.bs.map (viewOf ρ) = flatV ρ (skelOf w) i :=
+  h.1 ρ _ (dcur_pureVer ρ _ inv.wfsk i ((skelOf_isSome w i).mpr hlt))
+
+def SyncCond (w : W) (i : Nat) : Reg → Prop
+  | .cond _ _ _ last => last = pureVer (skelOf w) i
+  | .merged _ _ last => last = pureVer (skelOf w) i
+  | .glob _ _ last => last = pureVer (skelOf w) i
+  | .dyn t _ => t = none
+  | .kb _ => True
+
+/-- `lookupOwn` on an object whose own copy is synchronised (or which is a registry / dummy) -/
+theorem lookupOwn_ok {w : W} (inv : Inv w) {i : Nat} (hlt : i < w.regs.length) (ks : List Key)
+    (starting : Bool)
+    (hsync : ∀ r, w.regs[i]? = some r → SyncCond w i r) :
+    Inv (lookupOwn w i ks starting).1 ∧ Frame w (lookupOwn w i ks starting).1 (i + 1) ∧
+    ∀ ρ, (lookupOwn w i ks starting).2.map (viewOf ρ) =
+      if starting then matchStartingV (flatV ρ (skelOf w) i) ks else matchForV (flatV ρ (skelOf w) i) ks := by
+  have hlook : ∀ (k : KB), KBOK k →
+      let r := (if starting then k.getStarting ks else k.getFor ks)
+      KBOK r.1 ∧ r.1.bs = k.bs ∧ r.1.ver = k.ver ∧
+      ∀ ρ, r.2.map (viewOf ρ) = if starting then matchStartingV (k.bs.map (viewOf ρ)) ks
+                                 else matchForV (k.bs.map (viewOf ρ)) ks := by
+    intro k ok
+    cases starting with
+    | true =>
+      have := KB.getStarting_spec ok ks
+      exact ⟨this.2.1, this.2.2.1, this.2.2.2, fun ρ => by simp [this.1, matchStarting_view]⟩
+    | false =>
+      have := KB.getFor_spec ok ks
+      exact ⟨this.2.1, this.2.2.1, this.2.2.2, fun ρ => by simp [this.1, matchFor_view]⟩
+  cases he : w.regs[i]? with
+  | none => exact absurd (List.getElem?_eq_none_iff.mp he) (by omega)
+  | some r =>
+    have ok := inv.ent i r he
+    have hs := hsync r he
+    cases r with
+    | kb k =>
+      obtain ⟨l1, l2, l3, l4⟩ := hlook k ok.1
+      have hnew : EntOK w.heap (skelOf w) i
+          (.kb (if starting then k.getStarting ks else k.getFor ks).1) := ⟨l1, by rw [l2]; exact ok.2⟩
+      obtain ⟨i3, f3⟩ := inv.setEntry _ inv.heap (fun _ h => h) i (.kb k)
+        (.kb (if starting then k.getStarting ks else k.getFor ks).1) he
+        (by simp [Reg.skel, l2, l3]) hnew
+      unfold lookupOwn
+      simp only [he]
+      refine ⟨i3, f3, fun ρ => ?_⟩
+      rw [l4 ρ, flatV_kb (skelOf_of_get he)]
+    | cond c flt b2 last =>
+      obtain ⟨l1, l2, l3, l4⟩ := hlook b2 ok.2.1
+      simp only [SyncCond] at hs; subst hs
+      have hnew : EntOK w.heap (skelOf w) i
+          (.cond c flt (if starting then b2.getStarting ks else b2.getFor ks).1 (pureVer (skelOf w) i)) :=
+        ⟨ok.1, l1, by rw [l2]; exact ok.2.2.1, ok.2.2.2.1, ok.2.2.2.2.of_bs l2⟩
+      obtain ⟨i3, f3⟩ := inv.setEntry _ inv.heap (fun _ h => h) i (.cond c flt b2 _)
+        (.cond c flt (if starting then b2.getStarting ks else b2.getFor ks).1 (pureVer (skelOf w) i))
+        he rfl hnew
+      unfold lookupOwn
+      simp only [he]
+      refine ⟨i3, f3, fun ρ => ?_⟩
+      rw [l4 ρ, ok.2.2.2.2.views inv hlt ρ]
+    | merged cs b2 last =>
+      obtain ⟨l1, l2, l3, l4⟩ := hlook b2 ok.2.1
+      simp only [SyncCond] at hs; subst hs
+      have hnew : EntOK w.heap (skelOf w) i
+          (.merged cs (if starting then b2.getStarting ks else b2.getFor ks).1 (pureVer (skelOf w) i)) :=
+        ⟨ok.1, l1, by rw [l2]; exact ok.2.2.1, ok.2.2.2.of_bs l2⟩
+      obtain ⟨i3, f3⟩ := inv.setEntry _ inv.heap (fun _ h => h) i (.merged cs b2 _)
+        (.merged cs (if starting then b2.getStarting ks else b2.getFor ks).1 (pureVer (skelOf w) i))
+        he rfl hnew
+      unfold lookupOwn
+      simp only [he]
+      refine ⟨i3, f3, fun ρ => ?_⟩
+      rw [l4 ρ, ok.2.2.2.views inv hlt ρ]
+    | glob c b2 last =>
+      obtain ⟨l1, l2, l3, l4⟩ := hlook b2 ok.2.1
+      simp only [SyncCond] at hs; subst hs
+      have hnew : EntOK w.heap (skelOf w) i
+          (.glob c (if starting then b2.getStarting ks else b2.getFor ks).1 (pureVer (skelOf w) i)) :=
+        ⟨ok.1, l1, by rw [l2]; exact ok.2.2.1, ok.2.2.2.of_bs l2⟩
+      obtain ⟨i3, f3⟩ := inv.setEntry _ inv.heap (fun _ h => h) i (.glob c b2 _)
+        (.glob c (if starting then b2.getStarting ks else b2.getFor ks).1 (pureVer (skelOf w) i))
+        he rfl hnew
+      unfold lookupOwn
+      simp only [he]
+      refine ⟨i3, f3, fun ρ => ?_⟩
+      rw [l4 ρ, ok.2.2.2.views inv hlt ρ]
+    | dyn t d =>
+      simp only [SyncCond] at hs; subst hs
+      obtain ⟨l1, l2, l3, l4⟩ := hlook d ok.2.1
+      have hnew : EntOK w.heap (skelOf w) i
+          (.dyn none (if starting then d.getStarting ks else d.getFor ks).1) :=
+        ⟨ok.1, l1, by rw [l2]; exact ok.2.2.1, by rw [l3]; exact ok.2.2.2⟩
+      obtain ⟨i3, f3⟩ := inv.setEntry _ inv.heap (fun _ h => h) i (.dyn none d)
+        (.dyn none (if starting then d.getStarting ks else d.getFor ks).1) he rfl hnew
+      unfold lookupOwn
+      simp only [he]
+      refine ⟨i3, f3, fun ρ => ?_⟩
+      rw [l4 ρ, ok.2.2.1, flatV_dynNone (skelOf_of_get he)]
+      cases starting <;> rfl
+
+/-! ### one more level of nesting -/
+
+section step3
+variable {p : Fns} {n : Nat} (hp : OpsOK p n)
+include hp
+
+theorem updateWith_ok {w : W} {i : Nat} (inv : Inv w) (hi : i ≤ n) (hlt : i < w.regs.length) :
+    Inv (updateWith p w i) ∧ Frame w (updateWith p w i) (i + 1) ∧
+    ((∀ t d, w.regs[i]? ≠ some (.dyn (some t) d)) →
+      ∀ r, (updateWith p w i).regs[i]? = some r → SyncCond (updateWith p w i) i r) := by
+  cases he : w.regs[i]? with
+  | none => exact absurd (List.getElem?_eq_none_iff.mp he) (by omega)
+  | some r =>
+    cases r with
+    | kb k =>
+      have : updateWith p w i = w := by simp [updateWith, he]
+      rw [this]
+      refine ⟨inv, Frame.refl _ _, fun _ r hr => ?_⟩
+      rw [he] at hr; cases hr; trivial
+    | cond c flt b2 last =>
+      obtain ⟨a1, a2, b2', a3⟩ := updateWith_cond hp inv hi he
+      refine ⟨a1, a2, fun _ r hr => ?_⟩
+      rw [a3] at hr; cases hr
+      show pureVer (skelOf w) i = pureVer (skelOf (updateWith p w i)) i
+      rw [a2.skel]
+    | merged cs b2 last =>
+      obtain ⟨a1, a2, b2', a3⟩ := updateWith_merged hp inv hi he
+      refine ⟨a1, a2, fun _ r hr => ?_⟩
+      rw [a3] at hr; cases hr
+      show pureVer (skelOf w) i = pureVer (skelOf (updateWith p w i)) i
+      rw [a2.skel]
+    | glob c b2 last =>
+      obtain ⟨a1, a2, b2', a3⟩ := updateWith_glob hp inv hi he
+      refine ⟨a1, a2, fun _ r hr => ?_⟩
+      rw [a3] at hr; cases hr
+      show pureVer (skelOf w) i = pureVer (skelOf (updateWith p w i)) i
+      rw [a2.skel]
+    | dyn t d =>
+      cases t with
+      | none =>
+        have : updateWith p w i = w := by simp [updateWith, he]
+        rw [this]
+        refine ⟨inv, Frame.refl _ _, fun _ r hr => ?_⟩
+        rw [he] at hr; cases hr; rfl
+      | some t =>
+        have ht : t < i := (inv.ent i _ he).1 t rfl
+        have : updateWith p w i = (p.version w t).1 := by simp [updateWith, he]
+        rw [this]
+        obtain ⟨a1, a2, _⟩ := hp.version w t inv (by omega) (by omega)
+        exact ⟨a1, ⟨a2.env, a2.skel, a2.heap, fun j hj => a2.above j (by omega)⟩,
+          fun h => absurd rfl (h t d)⟩
+
+theorem opsOK_step : OpsOK p.step (n + 1) := by
+  constructor
+  · -- version
+    intro w i inv hi hlt
+    have hi' : i ≤ n := by omega
+    cases he : w.regs[i]? with
+    | none => exact absurd (List.getElem?_eq_none_iff.mp he) (by omega)
+    | some r =>
+      have hsk := skelOf_of_get he
+      cases r with
+      | kb k =>
+        simp only [Fns.step, he]
+        exact ⟨inv, Frame.refl _ _, (pureVer_kb hsk).symm⟩
+      | dyn t d =>
+        cases t with
+        | none =>
+          simp only [Fns.step, he]
+          refine ⟨inv, Frame.refl _ _, ?_⟩
+          rw [pureVer_dynNone hsk, (inv.ent i _ he).2.2.2]
+        | some t =>
+          have ht : t < i := (inv.ent i _ he).1 t rfl
+          simp only [Fns.step, he]
+          obtain ⟨a1, a2, a3⟩ := hp.version w t inv (by omega) (by omega)
+          refine ⟨a1, ⟨a2.env, a2.skel, a2.heap, fun j hj => a2.above j (by omega)⟩, ?_⟩
+          rw [pureVer_dyn hsk ht, a3]
+      | cond c flt b2 last =>
+        obtain ⟨a1, a2, b2', a3⟩ := updateWith_cond hp inv hi' he
+        simp only [Fns.step, he, a3]
+        exact ⟨a1, a2, trivial⟩
+      | merged cs b2 last =>
+        obtain ⟨a1, a2, b2', a3⟩ := updateWith_merged hp inv hi' he
+        simp only [Fns.step, he, a3]
+        exact ⟨a1, a2, trivial⟩
+      | glob c b2 last =>
+        obtain ⟨a1, a2, b2', a3⟩ := updateWith_glob hp inv hi' he
+        simp only [Fns.step, he, a3]
+        exact ⟨a1, a2, trivial⟩
+  · -- bindings
+    intro w i inv hi hlt
+    have hi' : i ≤ n := by omega
+    cases he : w.regs[i]? with
+    | none => exact absurd (List.getElem?_eq_none_iff.mp he) (by omega)
+    | some r =>
+      have hsk := skelOf_of_get he
+      cases r with
+      | kb k =>
+        simp only [Fns.step, he]
+        exact ⟨inv, Frame.refl _ _, (inv.ent i _ he).2, fun ρ => (flatV_kb hsk).symm⟩
+      | dyn t d =>
+        cases t with
+        | none =>
+          simp only [Fns.step, he]
+          refine ⟨inv, Frame.refl _ _, ?_, fun ρ => ?_⟩
+          · rw [(inv.ent i _ he).2.2.1]; exact fun b hb => nomatch hb
+          · rw [(inv.ent i _ he).2.2.1, flatV_dynNone hsk]; rfl
+        | some t =>
+          have ht : t < i := (inv.ent i _ he).1 t rfl
+          simp only [Fns.step, he]
+          obtain ⟨a1, a2, a3⟩ := hp.version w t inv (by omega) (by omega)
+          obtain ⟨b1, b2, b3, b4⟩ := hp.bindings (p.version w t).1 t a1 (by omega)
+            (by rw [a2.len]; omega)
+          refine ⟨b1, (a2.trans b2 (Nat.le_refl _) (Nat.le_refl _)).trans (Frame.refl _ _)
+            (by omega) (Nat.le_refl _), b3, fun ρ => ?_⟩
+          rw [b4 ρ, a2.skel, flatV_dyn hsk ht]
+      | cond c flt b2 last =>
+        obtain ⟨a1, a2, b2', a3⟩ := updateWith_cond hp inv hi' he
+        simp only [Fns.step, he, a3]
+        have ok := a1.ent i _ a3
+        refine ⟨a1, a2, ok.2.2.1, fun ρ => ?_⟩
+        have := ok.2.2.2.2
+        rw [a2.skel] at this
+        have h2 := this.1 ρ _ (dcur_pureVer ρ _ inv.wfsk i ((skelOf_isSome w i).mpr hlt))
+        exact h2
+      | merged cs b2 last =>
+        obtain ⟨a1, a2, b2', a3⟩ := updateWith_merged hp inv hi' he
+        simp only [Fns.step, he, a3]
+        have ok := a1.ent i _ a3
+        refine ⟨a1, a2, ok.2.2.1, fun ρ => ?_⟩
+        have := ok.2.2.2
+        rw [a2.skel] at this
+        exact this.1 ρ _ (dcur_pureVer ρ _ inv.wfsk i ((skelOf_isSome w i).mpr hlt))
+      | glob c b2 last =>
+        obtain ⟨a1, a2, b2', a3⟩ := updateWith_glob hp inv hi' he
+        simp only [Fns.step, he, a3]
+        have ok := a1.ent i _ a3
+        refine ⟨a1, a2, ok.2.2.1, fun ρ => ?_⟩
+        have := ok.2.2.2
+        rw [a2.skel] at this
+        exact this.1 ρ _ (dcur_pureVer ρ _ inv.wfsk i ((skelOf_isSome w i).mpr hlt))
+  · -- get_bindings_for_keys
+    intro w i ks inv hi hlt
+    have hi' : i ≤ n := by omega
+    by_cases hd : ∃ t d, w.regs[i]? = some (.dyn (some t) d)
+    · obtain ⟨t, d, he⟩ := hd
+      have hsk := skelOf_of_get he
+      have ht : t < i := (inv.ent i _ he).1 t rfl
+      simp only [Fns.step, he]
+      obtain ⟨a1, a2, a3⟩ := hp.version w t inv (by omega) (by omega)
+      obtain ⟨b1, b2, b4⟩ := hp.getFor (p.version w t).1 t ks a1 (by omega) (by rw [a2.len]; omega)
+      refine ⟨b1, (a2.trans b2 (Nat.le_refl _) (Nat.le_refl _)).trans (Frame.refl _ _)
+        (by omega) (Nat.le_refl _), fun ρ => ?_⟩
+      rw [b4 ρ, a2.skel, flatV_dyn hsk ht]
+    · have hnd : ∀ t d, w.regs[i]? ≠ some (.dyn (some t) d) := fun t d h => hd ⟨t, d, h⟩
+      obtain ⟨u1, u2, u3⟩ := updateWith_ok hp inv hi' hlt
+      have hl' : i < (updateWith p w i).regs.length := by rw [u2.len]; exact hlt
+      obtain ⟨l1, l2, l3⟩ := lookupOwn_ok u1 hl' ks false (u3 hnd)
+      have hstep : p.step.getFor w i ks = lookupOwn (updateWith p w i) i ks false := by
+        cases he : w.regs[i]? with
+        | none => exact absurd (List.getElem?_eq_none_iff.mp he) (by omega)
+        | some r =>
+          cases r with
+          | dyn t d =>
+            cases t with
+            | none => simp [Fns.step, he]
+            | some t => exact absurd he (hnd t d)
+          | _ => simp [Fns.step, he]
+      rw [hstep]
+      refine ⟨l1, u2.trans l2 (Nat.le_refl _) (Nat.le_refl _), fun ρ => ?_⟩
+      rw [l3 ρ, u2.skel]; rfl
+  · -- get_bindings_starting_with_keys
+    intro w i ks inv hi hlt
+    have hi' : i ≤ n := by omega
+    by_cases hd : ∃ t d, w.regs[i]? = some (.dyn (some t) d)
+    · obtain ⟨t, d, he⟩ := hd
+      have hsk := skelOf_of_get he
+      have ht : t < i := (inv.ent i _ he).1 t rfl
+      simp only [Fns.step, he]
+      obtain ⟨a1, a2, a3⟩ := hp.version w t inv (by omega) (by omega)
+      obtain ⟨b1, b2, b4⟩ := hp.getStart (p.version w t).1 t ks a1 (by omega) (by rw [a2.len]; omega)
+      refine ⟨b1, (a2.trans b2 (Nat.le_refl _) (Nat.le_refl _)).trans (Frame.refl _ _)
+        (by omega) (Nat.le_refl _), fun ρ => ?_⟩
+      rw [b4 ρ, a2.skel, flatV_dyn hsk ht]
+    · have hnd : ∀ t d, w.regs[i]? ≠ some (.dyn (some t) d) := fun t d h => hd ⟨t, d, h⟩
+      obtain ⟨u1, u2, u3⟩ := updateWith_ok hp inv hi' hlt
+      have hl' : i < (updateWith p w i).regs.length := by rw [u2.len]; exact hlt
+      obtain ⟨l1, l2, l3⟩ := lookupOwn_ok u1 hl' ks true (u3 hnd)
+      have hstep : p.step.getStart w i ks = lookupOwn (updateWith p w i) i ks true := by
+        cases he : w.regs[i]? with
+        | none => exact absurd (List.getElem?_eq_none_iff.mp he) (by omega)
+        | some r =>
+          cases r with
+          | dyn t d =>
+            cases t with
+            | none => simp [Fns.step, he]
+            | some t => exact absurd he (hnd t d)
+          | _ => simp [Fns.step, he]
+      rw [hstep]
+      refine ⟨l1, u2.trans l2 (Nat.le_refl _) (Nat.le_refl _), fun ρ => ?_⟩
+      rw [l3 ρ, u2.skel]; rfl
+end step3
+
+theorem fns_ok : ∀ n, OpsOK (fns n) n
+  | 0 => opsOK_bottom
+  | n + 1 => opsOK_step (fns_ok n)
+
+/-- **wrapper_reflects**: in every object table satisfying the invariant, for every object `i`
+    (any nesting of conditional / merged / dynamic / global-only wrappers over registries,
+    shared or not), `get_bindings_for_keys`, `get_bindings_starting_with_keys`, `.bindings` and
+    `_version` called through `i` return — under every assignment `ρ` of the conditions — exactly
+    what the documented lookup gives on the bindings that are in the underlying registries *now*
+    (`flatV`), whatever the wrappers had cached before; the call keeps the invariant and changes
+    neither the registries nor the shape of the wrappers. -/
+theorem wrapper_reflects (w : W) (inv : Inv w) (i : Nat) (hi : i < w.regs.length) (ks : List Key) :
+    (Inv (w.fns.getFor w i ks).1 ∧ skelOf (w.fns.getFor w i ks).1 = skelOf w ∧
+      ∀ ρ, (w.fns.getFor w i ks).2.map (viewOf ρ) = matchForV (flatV ρ (skelOf w) i) ks) ∧
+    (Inv (w.fns.getStart w i ks).1 ∧ skelOf (w.fns.getStart w i ks).1 = skelOf w ∧
+      ∀ ρ, (w.fns.getStart w i ks).2.map (viewOf ρ) = matchStartingV (flatV ρ (skelOf w) i) ks) ∧
+    (Inv (w.fns.bindings w i).1 ∧ skelOf (w.fns.bindings w i).1 = skelOf w ∧
+      ∀ ρ, (w.fns.bindings w i).2.map (viewOf ρ) = flatV ρ (skelOf w) i) ∧
+    (Inv (w.fns.version w i).1 ∧ skelOf (w.fns.version w i).1 = skelOf w ∧
+      (w.fns.version w i).2 = pureVer (skelOf w) i) := by
+  have ok := fns_ok (w.regs.length + 1)
+  have hi' : i < w.regs.length + 1 := by omega
+  obtain ⟨a1, a2, a3⟩ := ok.getFor w i ks inv hi' hi
+  obtain ⟨b1, b2, b3⟩ := ok.getStart w i ks inv hi' hi
+  obtain ⟨c1, c2, _, c3⟩ := ok.bindings w i inv hi' hi
+  obtain ⟨d1, d2, d3⟩ := ok.version w i inv hi' hi
+  exact ⟨⟨a1, a2.skel, a3⟩, ⟨b1, b2.skel, b3⟩, ⟨c1, c2.skel, c3⟩, ⟨d1, d2.skel, d3⟩⟩
 
 end Ptk.C04
